@@ -15,6 +15,46 @@ def port_fn(prog, name):
     return prog.one(name=name, self_name="Port", crate="statime-lib")
 
 
+def bodies_of(prog, fn):
+    """the Port method `fn` plus the helpers it was split into: functions it calls (transitively, depth 2) that no
+    rule knows by name (facts.Program.opaque_names) and that live in the port modules"""
+    root = port_fn(prog, fn)
+    out = [root]
+    seen = {root.key}
+    work = [(root, 0)]
+    opaque = prog.opaque_names()
+    while work:
+        b, d = work.pop()
+        if d >= 2:
+            continue
+        for bi, t, cal in mir.iter_calls(b):
+            key = cal.get("resolved") or cal["key"]
+            cb = prog.bodies.get(key)
+            if cb is None or cb.key in seen or cb.is_closure or cal["name"] in opaque or \
+                    not cb.key.startswith("statime::port::"):
+                continue
+            seen.add(cb.key)
+            out.append(cb)
+            work.append((cb, d + 1))
+    return out
+
+
+def norm_stores(body, sts):
+    """stores with the root of a local of type Measurement spelled `result` whatever the local is called"""
+    names = {}
+    for i, l in enumerate(body.locals):
+        nm = body.local_name(i)
+        if nm and body.ty(l["ty"]).get("name") == "Measurement":
+            names[nm] = "result"
+    out = []
+    for st in sts:
+        root = st["lhs"].split(".")[0]
+        if root in names and names[root] != root:
+            st = dict(st, lhs=names[root] + st["lhs"][len(root):])
+        out.append(st)
+    return out
+
+
 def norm_form(s):
     d = df.parse_lin(s)
     return tuple(sorted((k, str(v)) for k, v in d.items()))
@@ -33,38 +73,40 @@ def check_formulas(ctx, rid, fns, relevant_re, spec):
     rx = re.compile(relevant_re)
     for fn in fns:
         try:
-            body = port_fn(prog, fn)
+            bodies = bodies_of(prog, fn)
         except AnchorMissing as e:
             rep.anchor_missing(rid, str(e))
             continue
-        sts, pv = stores(body)
         table = spec.get(fn, {})
         seen = set()
-        for st in sts:
-            lhs = st["lhs"]
-            if not rx.search(lhs) or st["macro"]:
-                continue
-            where = "%s:%d" % (body.file, st["line"])
-            if lhs not in table:
-                rep.violation(rid, body.key, "store:%s" % lhs,
-                              "store into measurement state `%s` (= %s) is not in the formula table for %s" % (
-                                  lhs, df.canon(st["tree"], body), fn), where=where)
-                continue
-            seen.add(lhs)
-            form, txt = form_of(st["tree"], body)
-            allowed = [norm_form(s) for s in table[lhs]]
-            if form in allowed:
-                rep.ok(rid, body.key, "%s=%s" % (lhs, txt), where=where,
-                       nontrivial=len(form) > 1 or (len(form) == 1 and not form[0][0].startswith("'")))
-            else:
-                rep.violation(rid, body.key, "store:%s" % lhs,
-                              "`%s` is computed as  %s  but IEEE 1588 prescribes  %s" % (lhs, txt, " or ".join(table[lhs])),
-                              where=where, detail={"expr": df.canon(st["tree"], body)})
+        for body in bodies:
+            sts, pv = stores(body)
+            sts = norm_stores(body, sts)
+            for st in sts:
+                lhs = st["lhs"]
+                if not rx.search(lhs) or st["macro"] or st.get("inlined_from"):
+                    continue
+                where = "%s:%d" % (body.file, st["line"])
+                if lhs not in table:
+                    rep.violation(rid, body.key, "store:%s" % lhs,
+                                  "store into measurement state `%s` (= %s) is not in the formula table for %s" % (
+                                      lhs, df.canon(st["tree"], body), fn), where=where)
+                    continue
+                seen.add(lhs)
+                form, txt = form_of(st["tree"], body)
+                allowed = [norm_form(s) for s in table[lhs]]
+                if form in allowed:
+                    rep.ok(rid, body.key, "%s=%s" % (lhs, txt), where=where,
+                           nontrivial=len(form) > 1 or (len(form) == 1 and not form[0][0].startswith("'")))
+                else:
+                    rep.violation(rid, body.key, "store:%s" % lhs,
+                                  "`%s` is computed as  %s  but IEEE 1588 prescribes  %s" % (lhs, txt, " or ".join(table[lhs])),
+                                  where=where, detail={"expr": df.canon(st["tree"], body)})
         for lhs in table:
             if rx.search(lhs) and lhs not in seen:
-                rep.violation(rid, body.key, "missing:%s" % lhs,
+                rep.violation(rid, bodies[0].key, "missing:%s" % lhs,
                               "no store into `%s` found in %s (the table expects %s)" % (lhs, fn, table[lhs]),
-                              where=body.loc())
+                              where=bodies[0].loc())
 
 
 def check_id_gates(ctx, rid, fns, state_re, ts_fields, self_state_prefix):
@@ -158,29 +200,33 @@ def check_reset(ctx, rid, pairs):
     rep = ctx.report
     prog = ctx.prog("default")
     try:
-        body = port_fn(prog, "extract_measurement")
+        bodies = bodies_of(prog, "extract_measurement")
     except AnchorMissing as e:
         rep.anchor_missing(rid, str(e))
         return
-    sts, pv = stores(body)
-    g = mir.cfg(body)
+    per = []
+    for body in bodies:
+        sts, pv = stores(body)
+        per.append((body, norm_stores(body, sts), mir.cfg(body)))
     for (meas_lhs, state_lhs, reset_values) in pairs:
-        ms = [s for s in sts if s["lhs"] == meas_lhs and not s["macro"]]
-        rs = [s for s in sts if s["lhs"] == state_lhs and not s["macro"] and
-              any(v in df.canon(s["tree"], body) for v in reset_values)]
-        if not ms:
-            rep.violation(rid, body.key, "missing:%s" % meas_lhs, "no store into %s" % meas_lhs, where=body.loc())
-            continue
-        for m in ms:
-            where = "%s:%d" % (body.file, m["line"])
-            ok = any(r["bb"] == m["bb"] and r["idx"] > m["idx"] or (r["bb"] != m["bb"] and g.postdominates(r["bb"], m["bb"]))
-                     for r in rs)
-            if ok:
-                rep.ok(rid, body.key, "reset:%s->%s" % (meas_lhs, state_lhs), where=where)
-            else:
-                rep.violation(rid, body.key, "reset:%s->%s" % (meas_lhs, state_lhs),
-                              "a measurement `%s` can be returned without `%s` being reset to %s: the same exchange "
-                              "would be used again" % (meas_lhs, state_lhs, reset_values), where=where)
+        found = False
+        for (body, sts, g) in per:
+            ms = [s for s in sts if s["lhs"] == meas_lhs and not s["macro"]]
+            rs = [s for s in sts if s["lhs"] == state_lhs and not s["macro"] and
+                  any(v in df.canon(s["tree"], body) for v in reset_values)]
+            for m in ms:
+                found = True
+                where = "%s:%d" % (body.file, m["line"])
+                ok = any(r["bb"] == m["bb"] and r["idx"] > m["idx"] or (r["bb"] != m["bb"] and g.postdominates(r["bb"], m["bb"]))
+                         for r in rs)
+                if ok:
+                    rep.ok(rid, body.key, "reset:%s->%s" % (meas_lhs, state_lhs), where=where)
+                else:
+                    rep.violation(rid, body.key, "reset:%s->%s" % (meas_lhs, state_lhs),
+                                  "a measurement `%s` can be returned without `%s` being reset to %s: the same exchange "
+                                  "would be used again" % (meas_lhs, state_lhs, reset_values), where=where)
+        if not found:
+            rep.violation(rid, bodies[0].key, "missing:%s" % meas_lhs, "no store into %s" % meas_lhs, where=bodies[0].loc())
 
 
 def check_no_float(ctx, rid, fns, relevant_re):
